@@ -58,7 +58,9 @@ func modelPositions(p *Parser, c *Call, R0 *CallResult) PosOracle {
 // misbehaving blocks) with the store of the reference model.
 func campaignC05(p *Parser, req *Request, resp *Response) {
 	call := req.Call
-	call.Opts.Memoize = false
+	if contains(p.Flags, "-support-left-recursion") || !p.Has["Memoize"] {
+		call.Opts.Memoize = false // the model's memo does not cover the interplay with seed growing
+	}
 	call.Opts.MaxExpr = 0
 	call.Opts.AllowInvalidUTF8 = false
 	call.Plan.Faults = nil
